@@ -154,6 +154,17 @@ func (p *HTTPProxy) ServeHTTP(w http.ResponseWriter, r *http.Request) {
 		targetURL.RawQuery = t.URL.RawQuery + "&" + r.URL.RawQuery
 	}
 
+	// X-Forwarded-Host and X-Forwarded-Port describe the host the client asked
+	// for: derive them before the route rewrites the Host header
+	if t.Host != "" {
+		if r.Header.Get("X-Forwarded-Port") == "" {
+			r.Header.Set("X-Forwarded-Port", localPort(r))
+		}
+		if r.Header.Get("X-Forwarded-Host") == "" && r.Host != "" {
+			r.Header.Set("X-Forwarded-Host", r.Host)
+		}
+	}
+
 	if t.Host == "dst" {
 		r.Host = targetURL.Host
 	} else if t.Host != "" {
